@@ -87,7 +87,7 @@ class Check:
             'where': where, 'vector': vec, 'context': ctxt[:2000] if vec is None else None}))
 
     ABORT_ASPECT = {'obj': 'C06.abort', 'parse': 'C03.abort', 'parse_bytes': 'C03.abort', 'nest': 'C03.abort', 'nestb': 'C03.abort', 'print': 'C13.abort',
-                    'wide': 'C13.abort', 'canon': 'C09.abort', 'uneq': 'C15.abort', 'ser': 'C16.abort', 'de': 'C16.abort', 'sj': 'C18.abort',
+                    'wide': 'C13.abort', 'deepprint': 'C13.abort', 'canon': 'C09.abort', 'uneq': 'C15.abort', 'ser': 'C16.abort', 'de': 'C16.abort', 'sj': 'C18.abort',
                     'conv': 'C11.abort', 'fragiter': 'C11.abort', 'kind_set': 'C20.abort', 'kind_ops': 'C20.abort', 'kind_iter': 'C20.abort', 'access': 'C20.abort', 'macro': 'C19.abort'}
 
     def _isolated_replay(self, files, out, extra_args, chunk=20000):
@@ -587,9 +587,16 @@ def printer_trace(ctx, aspect_layout, aspect_roundtrip, only=None):
     ctx.samples.extend(s.get('samples', [])[:1])
 
 
+def deep_prints(ctx):
+    """deep expanded spines: indentation far beyond 65 535 columns"""
+    big = ('{<<<<"spaces", 2>>, 300>>, <<<<"spaces", 255>>, 258>>, <<<<"tabs", 255>>, 258>>}' if ctx.quick else
+           '{<<<<"spaces", 2>>, 300>>, <<<<"spaces", 255>>, 258>>, <<<<"tabs", 255>>, 258>>, <<<<"tabs", 128>>, 513>>, <<<<"spaces", 64>>, 1025>>, <<<<"spaces", 1>>, 5000>>}')
+    return ctx.mc(f'deep_{ctx.tier}', 'MC_Deep', {'Big': big}, {'NMax': 5}, ['ClosedForm', 'Dump'], spec='DSpec', workers=4)
+
+
 def c13(ctx):
     r = printer_model(ctx)
-    ctx.replay([r['out'], printer_strings(ctx)['out'], wide_families(ctx)['out']], ['C13.'])
+    ctx.replay([r['out'], printer_strings(ctx)['out'], wide_families(ctx)['out'], deep_prints(ctx)['out']], ['C13.'])
     printer_trace(ctx, 'C13.trace', None)
     sweeps(ctx, ['width_str', 'width_key'], 'C13.sweep',
            'the width the layout decision attributes to a one-character string / key differs from the number of characters printed '
@@ -598,7 +605,7 @@ def c13(ctx):
 
 def c04(ctx):
     r = printer_model(ctx)
-    ctx.replay([r['out'], printer_strings(ctx)['out'], wide_families(ctx)['out']], ['C04.'])
+    ctx.replay([r['out'], printer_strings(ctx)['out'], wide_families(ctx)['out'], deep_prints(ctx)['out']], ['C04.'])
     printer_trace(ctx, None, 'C04.trace')
 
 
